@@ -67,7 +67,14 @@ func nativeMapToObject(val any) Object {
 	valValue := reflect.ValueOf(val)
 
 	for _, key := range valValue.MapKeys() {
-		obj.Pairs[key.String()] = NativeToObject(valValue.MapIndex(key).Interface())
+		pair := NativeToObject(valValue.MapIndex(key).Interface())
+
+		// a nested value of an unsupported type makes the whole value unsupported
+		if pair == nil {
+			return nil
+		}
+
+		obj.Pairs[key.String()] = pair
 	}
 
 	return obj
@@ -103,17 +110,29 @@ func nativeStructToObject(val any) Object {
 
 		fieldVal := reflect.ValueOf(val).Field(i).Interface()
 
-		obj.Pairs[field.Name] = NativeToObject(fieldVal)
+		pair := NativeToObject(fieldVal)
+
+		if pair == nil {
+			return nil
+		}
+
+		obj.Pairs[field.Name] = pair
 	}
 
 	return obj
 }
 
-func nativeSliceToArrayObject(slice []any) *Array {
+func nativeSliceToArrayObject(slice []any) Object {
 	arr := &Array{}
 
 	for _, val := range slice {
-		arr.Elements = append(arr.Elements, NativeToObject(val))
+		elem := NativeToObject(val)
+
+		if elem == nil {
+			return nil
+		}
+
+		arr.Elements = append(arr.Elements, elem)
 	}
 
 	return arr
